@@ -357,3 +357,219 @@ Proof.
   apply (get_finds_direct _ _ _ 0); [now apply Fm| |auto|exact St].
   unfold responds in *. now rewrite Fa, Fs.
 Qed.
+
+(* ================= whole histories ================= *)
+Lemma get_upd nt i f k : k < length nt -> get (upd nt i f) k = if Nat.eqb k i then f (get nt k) else get nt k.
+Proof. intros H. unfold upd. now rewrite get_map_combine. Qed.
+
+Lemma upd_length nt i f : length (upd nt i f) = length nt.
+Proof. unfold upd. apply length_map_combine. Qed.
+
+Lemma lookup_s_length nt j key : length (lookup_s nt j key) = length nt.
+Proof. unfold lookup_s. apply length_map_combine. Qed.
+
+Lemma lookup_s_keeps nt j key i : i < length nt ->
+  n_alive (get (lookup_s nt j key) i) = n_alive (get nt i) /\ n_server (get (lookup_s nt j key) i) = n_server (get nt i) /\
+  n_boots (get (lookup_s nt j key) i) = n_boots (get nt i) /\
+  (forall x, mem x (n_main (get nt i)) = true -> mem x (n_main (get (lookup_s nt j key) i)) = true).
+Proof.
+  intros H. unfold lookup_s. rewrite get_map_combine by assumption. cbv beta iota zeta.
+  destruct (Nat.eqb i j); [|auto].
+  assert (M: forall x, mem x (n_main (get nt i)) = true ->
+             mem x (union (n_main (get nt i)) (filter (fun c => negb (mem key (n_store (get nt c)))) (responders_s nt j key))) = true)
+    by (intros x Hx; now rewrite mem_union, Hx).
+  destruct (union (responders_s nt j key) (self_visit_s nt j key)); cbn [n_alive n_server n_boots n_main set_tables set_cache]; auto.
+Qed.
+
+Lemma put_s_length nt w key : length (fst (put_s nt w key)) = length nt.
+Proof. unfold put_s. cbn [fst]. rewrite length_map_combine. apply lookup_s_length. Qed.
+
+Lemma put_s_keeps nt w key i : i < length nt ->
+  n_alive (get (fst (put_s nt w key)) i) = n_alive (get nt i) /\ n_server (get (fst (put_s nt w key)) i) = n_server (get nt i) /\
+  n_boots (get (fst (put_s nt w key)) i) = n_boots (get nt i) /\
+  (forall x, mem x (n_main (get nt i)) = true -> mem x (n_main (get (fst (put_s nt w key)) i)) = true).
+Proof.
+  intros Hi. unfold put_s. cbn [fst]. set (nt1 := lookup_s nt w key).
+  assert (L: length nt1 = length nt) by apply lookup_s_length.
+  rewrite get_map_combine by lia. cbv beta iota zeta.
+  destruct (lookup_s_keeps nt w key i Hi) as (Fa & Fs & Fb & Fm). fold nt1 in Fa, Fs, Fb, Fm.
+  destruct (mem i _); cbn [n_alive n_server n_boots n_main]; auto.
+Qed.
+
+Lemma put_keeps_boots nt w key i : i < length nt -> n_boots (get (fst (put nt w key)) i) = n_boots (get nt i).
+Proof.
+  intros Hi. unfold put. cbn [fst]. set (nt1 := lookup nt w false (Some key)).
+  assert (L: length nt1 = length nt) by apply lookup_length.
+  rewrite get_map_combine by lia. cbv beta iota zeta.
+  destruct (lookup_keeps_flags nt w false (Some key) i Hi) as (_ & _ & Fb & _). fold nt1 in Fb.
+  destruct (mem i _); cbn [n_boots]; auto.
+Qed.
+
+(* what every event keeps for the nodes that exist: the network only grows, tables only grow, modes and
+   bootstrap lists stay, and only a crash changes liveness *)
+Definition keeps (nt nt' : net) (i : nat) (e : nevent) : Prop :=
+  length nt <= length nt' /\
+  n_server (get nt' i) = n_server (get nt i) /\
+  n_boots (get nt' i) = n_boots (get nt i) /\
+  (n_alive (get nt' i) = n_alive (get nt i) \/ e = ECrash i) /\
+  (forall x, mem x (n_main (get nt i)) = true -> mem x (n_main (get nt' i)) = true).
+
+Lemma keeps_refl nt i e : keeps nt nt i e.
+Proof. unfold keeps. repeat split; auto. Qed.
+
+Lemma keeps_intro nt nt' i e :
+  length nt <= length nt' -> n_server (get nt' i) = n_server (get nt i) -> n_boots (get nt' i) = n_boots (get nt i) ->
+  n_alive (get nt' i) = n_alive (get nt i) ->
+  (forall x, mem x (n_main (get nt i)) = true -> mem x (n_main (get nt' i)) = true) -> keeps nt nt' i e.
+Proof. unfold keeps. intros. repeat split; auto. Qed.
+
+Theorem step_keeps e nt i : i < length nt -> keeps nt (nstep nt e) i e.
+Proof.
+  intros Hi. destruct e as [s b| |j f|j|w k|r k|w k|r k|r k|r k]; cbn [nstep].
+  - (* join *) unfold join.
+    set (new := {| n_alive := true; n_server := s; n_boots := b; n_main := []; n_signed := []; n_store := []; n_cache := [] |}).
+    assert (L: length (nt ++ [new]) = S (length nt)) by (rewrite app_length; cbn; lia).
+    destruct b as [|b0 bs].
+    + apply keeps_intro; rewrite ?L, ?get_app_old by assumption; auto.
+    + destruct (lookup_keeps_flags (nt ++ [new]) (length nt) true None i ltac:(lia)) as (Fa & Fs & Fb & _).
+      apply keeps_intro; rewrite ?lookup_length, ?L, ?Fa, ?Fs, ?Fb, ?get_app_old by assumption; auto.
+      intros x Hx. apply lookup_keeps_main; [lia|]. now rewrite get_app_old.
+  - (* dead address *) unfold add_dead. apply keeps_intro; rewrite ?app_length, ?get_app_old by assumption; auto. cbn. lia.
+  - (* lookup *) destruct (n_alive (get nt j)); [|apply keeps_refl].
+    destruct (lookup_keeps_flags nt j f None i Hi) as (Fa & Fs & Fb & _).
+    apply keeps_intro; rewrite ?lookup_length, ?Fa, ?Fs, ?Fb; auto. intros x Hx. now apply lookup_keeps_main.
+  - (* crash *) unfold crash, keeps. rewrite upd_length, get_upd by assumption.
+    destruct (Nat.eqb_spec i j) as [->|Hne]; cbn; repeat split; auto.
+  - (* put *) destruct (n_alive (get nt w)); [|apply keeps_refl].
+    destruct (put_keeps nt w k i Hi) as (Fa & Fs & Fm & _).
+    apply keeps_intro; rewrite ?put_length, ?put_keeps_boots, ?Fa, ?Fs by assumption; auto.
+  - (* get *) destruct (n_alive (get nt r)); [|apply keeps_refl].
+    destruct (lookup_keeps_flags nt r false (Some k) i Hi) as (Fa & Fs & Fb & _).
+    apply keeps_intro; rewrite ?lookup_length, ?Fa, ?Fs, ?Fb; auto. intros x Hx. now apply lookup_keeps_main.
+  - (* put, signed *) destruct (n_alive (get nt w)); [|apply keeps_refl].
+    destruct (put_s_keeps nt w k i Hi) as (Fa & Fs & Fb & Fm).
+    apply keeps_intro; rewrite ?put_s_length, ?Fa, ?Fs, ?Fb; auto.
+  - (* get, signed *) destruct (n_alive (get nt r)); [|apply keeps_refl].
+    destruct (lookup_s_keeps nt r k i Hi) as (Fa & Fs & Fb & Fm).
+    apply keeps_intro; rewrite ?lookup_s_length, ?Fa, ?Fs, ?Fb; auto.
+  - (* put + get *) destruct (n_alive (get nt r)); [|apply keeps_refl].
+    destruct (put_keeps nt r k i Hi) as (Fa & Fs & Fm & _).
+    apply keeps_intro; rewrite ?put_length, ?put_keeps_boots, ?Fa, ?Fs by assumption; auto.
+  - (* get joining a find_node lookup *) destruct (n_alive (get nt r)); [|apply keeps_refl].
+    set (nt1 := lookup nt r true None). assert (L1: length nt1 = length nt) by apply lookup_length.
+    destruct (lookup_keeps_flags nt r true None i Hi) as (Fa & Fs & Fb & _). fold nt1 in Fa, Fs, Fb.
+    assert (Fm: forall x, mem x (n_main (get nt i)) = true -> mem x (n_main (get nt1 i)) = true)
+      by (intros x Hx; now apply lookup_keeps_main).
+    apply keeps_intro; rewrite ?upd_length, ?L1, ?get_upd by lia; auto;
+      destruct (Nat.eqb i r); auto;
+      destruct (match self_visit nt r true None with [] => false | _ => true end); cbn [n_server n_boots n_alive n_main set_tables set_cache]; auto.
+    intros x Hx. destruct (n_boots (get nt1 i)); [rewrite mem_add1, (Fm x Hx); apply orb_true_r|auto].
+Qed.
+
+(* ---- the hub invariant over histories ---- *)
+Definition attached (nt : net) (j : nat) : Prop := j = 0 \/ mem 0 (n_main (get nt j)) = true.
+
+Record hub_inv (nt : net) : Prop := {
+  hi_len : 0 < length nt;
+  hi_first : responds nt 0 = true /\ n_boots (get nt 0) = [];
+  (* every node that was given bootstrap nodes knows the first node; the first node knows every such server *)
+  hi_att : forall j, j < length nt -> n_boots (get nt j) <> [] -> attached nt j;
+  hi_known : forall j, 0 < j < length nt -> n_boots (get nt j) <> [] -> n_server (get nt j) = true -> mem j (n_main (get nt 0)) = true }.
+
+(* an event is admissible when it does not crash the first node, and a joiner's bootstrap list only names
+   existing nodes, one of which responds and is (or knows) the first node *)
+Definition ev_ok (nt : net) (e : nevent) : Prop :=
+  match e with
+  | ECrash j => j <> 0
+  | EJoin _ boots => (forall x, In x boots -> x < length nt) /\
+                     (boots = [] \/ exists b, In b boots /\ responds nt b = true /\ attached nt b)
+  | _ => True
+  end.
+
+Fixpoint hist_ok (nt : net) (evs : list nevent) : Prop :=
+  match evs with [] => True | e :: r => ev_ok nt e /\ hist_ok (nstep nt e) r end.
+
+Lemma responds_step e nt i : i < length nt -> e <> ECrash i -> responds (nstep nt e) i = responds nt i.
+Proof.
+  intros Hi Hne. destruct (step_keeps e nt i Hi) as (_ & Fs & _ & [Fa|Fc] & _); [|contradiction].
+  unfold responds. now rewrite Fa, Fs.
+Qed.
+
+Theorem hub_step nt e : hub_inv nt -> ev_ok nt e -> hub_inv (nstep nt e).
+Proof.
+  intros [Hl [Hr Hb] Ha Hk] Hok.
+  assert (Hne: e <> ECrash 0) by (destruct e; cbn in Hok; congruence).
+  destruct (step_keeps e nt 0 Hl) as (Hlen & _ & Fb0 & _ & Fm0).
+  assert (OLD: forall j, j < length nt -> n_boots (get (nstep nt e) j) = n_boots (get nt j) /\
+                                          n_server (get (nstep nt e) j) = n_server (get nt j) /\
+                                          (forall x, mem x (n_main (get nt j)) = true -> mem x (n_main (get (nstep nt e) j)) = true)).
+  { intros j Hj. destruct (step_keeps e nt j Hj) as (_ & Fs & Fb & _ & Fm). auto. }
+  (* the nodes that existed before *)
+  assert (ATT: forall j, j < length nt -> n_boots (get (nstep nt e) j) <> [] -> attached (nstep nt e) j).
+  { intros j Hj Hbj. destruct (OLD j Hj) as (Fb & _ & Fm). rewrite Fb in Hbj. destruct (Ha j Hj Hbj) as [->|H]; [now left|right; auto]. }
+  assert (KN: forall j, 0 < j < length nt -> n_boots (get (nstep nt e) j) <> [] -> n_server (get (nstep nt e) j) = true ->
+                        mem j (n_main (get (nstep nt e) 0)) = true).
+  { intros j Hj Hbj Hsj. destruct (OLD j ltac:(lia)) as (Fb & Fs & _). rewrite Fb in Hbj. rewrite Fs in Hsj. apply Fm0. auto. }
+  assert (FIRST: responds (nstep nt e) 0 = true /\ n_boots (get (nstep nt e) 0) = []).
+  { split; [rewrite responds_step; auto|now rewrite Fb0]. }
+  destruct e as [s b| |j f|j|w k|r k|w k|r k|r k|r k].
+  3-10: (match goal with |- hub_inv (nstep ?n ?ev) =>
+           assert (EL: length (nstep n ev) = length n) by
+             (cbn [nstep]; repeat match goal with |- context [if ?c then _ else _] => destruct c end;
+              unfold crash; rewrite ?upd_length, ?lookup_length, ?put_length, ?put_s_length, ?lookup_s_length; reflexivity) end;
+         constructor; [lia|exact FIRST|intros j0 Hj0; apply ATT; lia|intros j0 Hj0; apply KN; lia]).
+  - (* join: one more node *)
+    destruct Hok as [Hv Hboots]. cbn [nstep] in *.
+    assert (L: length (join nt s b) = S (length nt)).
+    { unfold join. destruct b; [|rewrite lookup_length]; rewrite app_length; cbn; lia. }
+    constructor; [lia|exact FIRST| |].
+    + intros j Hj Hbj. destruct (Nat.eq_dec j (length nt)) as [->|Hne']; [|apply ATT; [lia|assumption]].
+      destruct Hboots as [->|(b0 & Hin & Hrb & Hab)].
+      * exfalso. apply Hbj. unfold join. now rewrite get_app_new.
+      * right. destruct (join_reaches_first nt s b b0 Hl Hr Hv Hin Hrb) as (H0 & _ & _); [|exact H0].
+        destruct Hab as [->|H]; auto.
+    + intros j Hj Hbj Hsj. destruct (Nat.eq_dec j (length nt)) as [->|Hne']; [|apply KN; [lia|assumption|assumption]].
+      destruct Hboots as [->|(b0 & Hin & Hrb & Hab)].
+      * exfalso. apply Hbj. unfold join. now rewrite get_app_new.
+      * destruct (join_reaches_first nt s b b0 Hl Hr Hv Hin Hrb) as (_ & _ & H2); [destruct Hab as [->|H]; auto|].
+        apply H2; [|exact Hb].
+        (* the joiner's mode is the one it was started with *)
+        unfold join in Hsj. destruct b as [|b1 bs]; [destruct Hin|].
+        destruct (lookup_keeps_flags (nt ++ [{| n_alive := true; n_server := s; n_boots := b1 :: bs; n_main := []; n_signed := []; n_store := []; n_cache := [] |}])
+                    (length nt) true None (length nt) ltac:(rewrite app_length; cbn; lia)) as (_ & Fs & _ & _).
+        rewrite Fs, get_app_new in Hsj. exact Hsj.
+  - (* dead address: one more entry, without bootstrap nodes *)
+    cbn [nstep] in *. unfold add_dead in *.
+    constructor; [rewrite app_length; cbn; lia|exact FIRST| |].
+    + intros j Hj Hbj. rewrite app_length in Hj. cbn in Hj. destruct (Nat.eq_dec j (length nt)) as [->|Hne']; [|apply ATT; [lia|assumption]].
+      exfalso. apply Hbj. now rewrite get_app_new.
+    + intros j Hj Hbj Hsj. rewrite app_length in Hj. cbn in Hj. destruct (Nat.eq_dec j (length nt)) as [->|Hne']; [|apply KN; [lia|assumption|assumption]].
+      exfalso. apply Hbj. now rewrite get_app_new.
+Qed.
+
+Theorem hub_history evs : forall nt, hub_inv nt -> hist_ok nt evs -> hub_inv (fold_left nstep evs nt).
+Proof.
+  induction evs as [|e r IH]; intros nt H Hok; [exact H|]. destruct Hok as [H1 H2]. cbn [fold_left].
+  apply IH; [now apply hub_step|exact H2].
+Qed.
+
+Lemma hub_start : hub_inv (join [] true []).
+Proof.
+  constructor; cbn; [lia|split; reflexivity| |].
+  - intros j Hj Hb. assert (j = 0) by lia. subst. exfalso. now apply Hb.
+  - intros j Hj. lia.
+Qed.
+
+(* C01 over histories: in any network reached through an admissible history, a put by any joined writer
+   returns Ok and a get started afterwards by any joined reader returns the value *)
+Theorem put_then_get_history evs w r key :
+  hist_ok (join [] true []) evs ->
+  let nt := fold_left nstep evs (join [] true []) in
+  0 < w < length nt -> 0 < r < length nt -> n_boots (get nt w) <> [] -> n_boots (get nt r) <> [] ->
+  snd (put nt w key) = true /\ get_finds (fst (put nt w key)) r key = true.
+Proof.
+  intros Hok nt Hw Hr Hbw Hbr. pose proof (hub_history evs _ hub_start Hok) as [Hl [H0 _] Ha _]. fold nt in Hl, H0, Ha.
+  apply put_then_get_via_first; try lia; try assumption.
+  - destruct (Ha w ltac:(lia) Hbw) as [E|H]; [lia|exact H].
+  - destruct (Ha r ltac:(lia) Hbr) as [E|H]; [lia|exact H].
+Qed.
